@@ -79,6 +79,15 @@ class ClassTable:
         return [c for c in self.classes if base in self.mro(c) and c != base]
 
 
+_ISINST = {}
+
+
+def _isinstance_fn(name):
+    if name not in _ISINST:
+        _ISINST[name] = z3.Function("py_isinstance_" + name, V, BoolS)
+    return _ISINST[name]
+
+
 class RefsEngine(Engine):
     def __init__(self, reg, opts=None):
         super().__init__(reg, opts)
@@ -275,6 +284,16 @@ class RefsEngine(Engine):
                 return PyBool(z3.Or(*[RS.cls_of(t) == RS.C[c] for c in subs]))
             if cn == "dict":
                 return PyBool(is_dict(t))
+            if cn in ("tuple", "list", "int", "float", "str", "bool", "complex", "set", "frozenset", "bytes"):
+                # a builtin type: an uninterpreted predicate of the value (nothing is known about it: over-approximation)
+                return PyBool(_isinstance_fn(cn)(t))
+        if isinstance(e.args[1], ast.Tuple) and all(isinstance(x, ast.Name) for x in e.args[1].elts):
+            # isinstance(x, (A, B, ...)): the disjunction
+            parts = []
+            for x in e.args[1].elts:
+                fake = ast.Call(func=e.func, args=[e.args[0], x], keywords=[])
+                parts.append(self.builtin_isinstance(fake, cx).t)
+            return PyBool(z3.Or(*parts))
         raise Unsupported("isinstance form")
 
     def builtin_float(self, e, cx):
